@@ -1,6 +1,7 @@
 """C09 — set membership `in {...}` is exact for any list of values, ranges and CIDRs (structural preconditions)."""
 from lib import *
 import common
+import sem
 
 LEVEL = "other"
 EXPLANATION = ("Necessary-condition check only: the binary search in RangeSet::contains is correct only over sorted, "
@@ -44,32 +45,39 @@ def rule_ctor(E, R):
             R.check(key_ok, rule, fn, "sorted by range start", where=c["sp"])
         if merges:
             clo = closure_of(merges[0][1]["args"][0])
-            ok = bool(clo) and any(b == "Le" for b in binops(clo["body"])) and any(a for a in exprs(clo["body"], "Assign")) and \
-                any(is_lit(x, True) for x in exprs(clo["body"], "Lit"))
-            R.check(ok, rule, fn, "the merge closure extends the kept range and drops the merged one", where=merges[0][1]["sp"])
+            S = sem.Sem(E, hb)
+            ok = False
+            assigns = []
+            if clo and len(clo.get("params", [])) == 2:
+                ids = []
+                for p_ in clo["params"]:
+                    q = [x for x in walk(p_) if x.get("k") == "PBinding"]
+                    ids.append(S.root.binds.get(q[0]["id"]) if q else None)
+                removed, kept = ids      # dedup_by(|candidate for removal, previous kept element|)
+
+                def acc(n, fr, meth, who):
+                    r = sem.is_method(S.resolve(n, fr).node, meth)
+                    return r is not None and sem.root_local(S, r, fr) is who
+                # the closure answers "remove" exactly when candidate.start() <= kept.end()
+                f = S.returns_true(clo["body"], S.root)
+                cm = [(op, l, r, fr) for op, l, r, fr, c in sem.weak_cmps(((f, True),)) if c] if f is not None else []
+                ok = len(cm) == 1 and cm[0][0] in ("Le", "Lt") and acc(cm[0][1], cm[0][3], "start", removed) and acc(cm[0][2], cm[0][3], "end", kept)
+                assigns = [x for x in S.sites() if sem.within(x, clo) and x.node.get("k") == "Assign"]
+                ok = ok and len(assigns) >= 1
+            R.check(ok, rule, fn, "the merge closure extends the kept range and drops the merged one",
+                    "expected: remove the candidate iff candidate.start() <= kept.end(), extending the kept range", merges[0][1]["sp"])
             # the kept range may only grow: its end is replaced only if the merged range ends later (or by a max)
-            if clo:
-                params = pat_bindings({"k": "x", "params": clo["params"]})
-                for a in exprs(clo["body"], "Assign"):
-                    grows = False
-                    if any(norm(c.get("callee", "")).endswith("::max") for c in exprs(a["r"], ("Call", "MethodCall"))):
-                        grows = True
-                    for n, st in walk_arms(clo["body"]):
-                        if n is a:
-                            for ent in st:
-                                if ent[0] == "if":
-                                    iff = [i for i in exprs(clo["body"], "If") if id(i) == ent[1]]
-                                    c = strip(iff[0]["cond"]) if iff else {}
-                                    if c.get("k") == "Binary" and c["op"] in ("Gt", "Ge", "Lt", "Le"):
-                                        l, r = strip(c["l"]), strip(c["r"])
-                                        ends = l.get("m") == "end" and r.get("m") == "end"
-                                        if ends:
-                                            later, kept = (l, r) if c["op"] in ("Gt", "Ge") else (r, l)
-                                            new_end = [x for x in exprs(a["r"], "MethodCall") if x["m"] == "end"]
-                                            same = bool(new_end) and local_name(new_end[0]["recv"]) == local_name(later["recv"])
-                                            grows = grows or (ent[2] is True and same)
-                    R.check(grows, rule, fn, "a merged range only ever grows (end replaced only by a later end)",
-                            "the kept range's end is overwritten unconditionally: merging a range with one nested inside it shrinks it", a["sp"])
+            for x in assigns:
+                a = x.node
+                grows = any(norm(c.get("callee", "")).endswith("::max") for c in exprs(a["r"], ("Call", "MethodCall")))
+                tgt = sem.root_local(S, a["l"], x.frame)
+                new_end = [e for e in exprs(a["r"], "MethodCall") if e["m"] == "end"]
+                for op, l, r, fr, certain in sem.weak_cmps(x.pc):
+                    if certain and op == "Lt" and acc(l, fr, "end", kept) and acc(r, fr, "end", removed):
+                        if tgt is kept and new_end and sem.root_local(S, new_end[0]["recv"], x.frame) is removed:
+                            grows = True
+                R.check(grows, rule, fn, "a merged range only ever grows (end replaced only by a later end)",
+                        "the kept range's end is overwritten unconditionally: merging a range with one nested inside it shrinks it", a["sp"])
     # FromIterator goes through From
     fi = E.hirs(r"^<range_set::RangeSet<T> as core::iter::traits::collect::FromIterator<.*>>::from_iter$")
     if len(fi) == 1:
@@ -89,13 +97,15 @@ def rule_ctor(E, R):
     R.check(users == ["range_set::RangeSet::contains"], rule, RS, "the ranges are searched only by contains()", str(users))
     hc = E.hir("range_set::RangeSet::contains")
     if hc:
+        S = sem.Sem(E, hc)
         t = tail(hc["body"])
         ok = t.get("k") == "MethodCall" and t["m"] == "is_ok"
         clo = None
         for c in exprs(hc["body"], "MethodCall"):
             if c["m"] == "binary_search_by":
                 clo = closure_of(c["args"][0])
-        ords = sorted({last_seg(def_path(p) or "") for p in exprs(clo["body"], "Path")} & {"Greater", "Equal", "Less"}) if clo else []
+        ords = sorted({last_seg(def_path(x.node) or "") for x in S.sites() if clo is not None and sem.within(x, clo) and x.node.get("k") == "Path"}
+                      & {"Greater", "Equal", "Less"})
         R.check(ok and ords == ["Equal", "Greater", "Less"], rule, "range_set::RangeSet::contains",
                 "member iff the search finds a range (comparator yields all three orderings)", str(ords), hc["span"])
 
@@ -105,15 +115,26 @@ def rule_families(E, R):
     h = E.hir(common.CMP_COMPILE)
     if not h:
         return R.cannot(rule, common.CMP_COMPILE, "anchor not found")
-    # split by ExplicitIpRange variant
+    # split by ExplicitIpRange variant (also through a private helper of the same file)
+    S = sem.Sem(E, h)
+    UX = sem.enum_universe(E, "rhs_types::ip::ExplicitIpRange")
+    pX = lambda v: norm(v.node.get("ty", "")).replace("&", "").strip() == "rhs_types::ip::ExplicitIpRange"
     split = {}
-    for m in exprs(h["body"], "Match"):
-        for a in m["arms"]:
-            v = pat_variant(a["pat"])
-            if v and "ExplicitIpRange::" in v:
-                pushes = [local_name(c["recv"]) for c in exprs(a["body"], "MethodCall") if c["m"] == "push"]
-                split[last_seg(v)] = pushes
-    R.check(split == {"V4": ["v4"], "V6": ["v6"]}, rule, common.CMP_COMPILE, "IPv4 ranges and IPv6 ranges are collected separately", str(split), h["span"])
+    for x in S.sites():
+        if x.node.get("k") == "MethodCall" and x.node["m"] == "push":
+            fam = sem.admitted_tuples(x.pc, [pX], [UX])
+            if len(fam) == 1:
+                split.setdefault(last_seg(next(iter(fam))[0]), []).append(sem.root_local(S, x.node["recv"], x.frame))
+    lits_ = [x for x in S.sites() if x.node.get("k") == "Struct" and norm(x.node["res"].get("path", "")).endswith("compile_with_compiler::OneOfIp")]
+    ok = set(split) == {"V4", "V6"} and all(len(v) == 1 and v[0] is not None for v in split.values()) and len(lits_) == 1 and \
+        split["V4"][0] is not split["V6"][0]
+    if ok:
+        f_ = {y["name"]: y["e"] for y in lits_[0].node["fields"]}
+        r4 = sem.provenance(S, f_.get("v4", {}), lits_[0].frame)
+        r6 = sem.provenance(S, f_.get("v6", {}), lits_[0].frame)
+        ok = r4[0] is split["V4"][0] and r6[0] is split["V6"][0] and "from" in r4[3] and "from" in r6[3]
+    R.check(ok, rule, common.CMP_COMPILE, "IPv4 ranges and IPv6 ranges are collected separately",
+            "each family's ranges must be pushed onto its own vector, which becomes the set of that family", h["span"])
     cmp_ = E.hirs(r"compile_with_compiler::OneOfIp as ast::index_expr::Compare<U>>::compare$")
     if len(cmp_) == 1:
         tbl = {}
